@@ -122,4 +122,50 @@ func sceneDoubleSlash() {
 	chk("C03 C04", vf.And(depAcc.Sub(vf.ModuleBalance(types.DepositAccName)).Equal(a1.Add(a2)), supply.Sub(vf.Supply()).Equal(a1.Add(a2))), "both-slashes-burned")
 	chk("C02 C01", vf.All(vf.Balance(c1).Sub(b1).Equal(fees[0]), vf.Balance(c2).Sub(b2).Equal(fees[1]), esc.Sub(vf.ModuleBalance(types.RequestAccName)).Equal(fees[0].Add(fees[1]))), "each-consumer-refunded-its-own-fee")
 	chk("C14", vf.Implies(post.Available, post.Deposit.AmountOf(Denom).GTE(MinDepositRef(k, ctx, b.Pricing.Price.AmountOf(Denom)))), "available-holds-minimum")
+	// both batches are cleaned up and both expiry entries consumed
+	for _, id := range [][]byte{id1, id2} {
+		n1, n2, n3 := countRecords(k, ctx, id, 1)
+		chk("C16 C11 C08", vf.All(n1 == 0, n2 == 0, n3 == 0, !k.HasRequestBatchExpiration(ctx, id), queued(ctx, types.ExpiredRequestBatchKey, id) == 0), "every-batch-expiring-in-the-block-is-processed")
+	}
+}
+
+// sceneTwoNewBatches: two running contexts of one consumer are due for a batch in the same block; both are served.
+func sceneTwoNewBatches() {
+	k, ctx := vf.Env()
+	ctx, H, now := Block(ctx)
+	Define(k, ctx, Svc)
+	owner, prov, consumer := vf.Addr("owner", 20), vf.Addr("prov", 20), vf.Addr("consumer", 20)
+	b := Binding(k, ctx, "b", Svc, prov, owner, 0, 0, false)
+	vf.Assume(b.Available)
+	id1, id2 := vf.Bytes("ctx1", 40), vf.Bytes("ctx2", 40)
+	vf.Assume(string(id1) != string(id2))
+	fee := RefPrice(b.Pricing, now, 0)
+	capAmt := vf.Amount("cap")
+	vf.Assume(capAmt.GTE(fee))
+	timeout := vf.Int64("timeout")
+	vf.Assume(vf.All(timeout >= 1, timeout < maxH, uint64(timeout) >= b.QoS))
+	for _, id := range [][]byte{id1, id2} {
+		rc := types.NewRequestContext(Svc, []sdk.AccAddress{prov}, consumer, InputOK, coins(capAmt), timeout, false, true, uint64(timeout)+5, -1,
+			0, 0, 0, 1, types.BATCHCOMPLETED, types.RUNNING, 1, "")
+		k.SetRequestContext(ctx, id, rc)
+		k.AddNewRequestBatch(ctx, id, H)
+	}
+	balC := vf.Amount("balConsumer")
+	vf.Assume(balC.GTE(fee.Add(fee)))
+	vf.SetBalance(consumer, balC)
+	esc := vf.Amount("escrowRest")
+	vf.SetModuleBalance(types.RequestAccName, esc)
+
+	panicked := vf.Try(func() { service.EndBlocker(ctx, k) })
+	chk("C20", !panicked, "endblock-no-panic")
+	vf.Assume(!panicked)
+
+	for _, id := range [][]byte{id1, id2} {
+		rc, found := k.GetRequestContext(ctx, id)
+		chk("C10 C09 C06", vf.And(found, rc.BatchCounter == 1 && rc.BatchState == types.BATCHRUNNING), "every-context-due-in-the-block-gets-its-batch")
+		chk("C11 C10", vf.All(!k.HasNewRequestBatch(ctx, id), queued(ctx, types.NewRequestBatchKey, id) == 0, expiryAt(k, ctx, id, H+timeout)), "each-entry-consumed-and-expiry-queued")
+		n1, _, n3 := countRecords(k, ctx, id, 1)
+		chk("C06 C16 C12", vf.And(n1 == 1, n3 == 1), "one-pending-request-per-context")
+	}
+	chk("C01 C02", vf.And(balC.Sub(vf.Balance(consumer)).Equal(fee.Add(fee)), vf.ModuleBalance(types.RequestAccName).Sub(esc).Equal(fee.Add(fee))), "consumer-pays-both-batches-into-escrow")
 }
